@@ -828,6 +828,7 @@ func Run(r *fw.Run) {
 	// (b2) key strings: the key hash binds name and key; altered key strings are refused
 	keyBinding(r)
 	overlapPart(r, nil)
+	retentionPart(r)
 	// dense length sweep: a text line, a signature payload and a key name of every length 0..enum.DenseMax
 	{
 		var mu sync.Mutex
@@ -961,6 +962,122 @@ func Run(r *fw.Run) {
 		}
 	})
 	r.Sample(caseT{Kind: "mutation", Text: strconv.QuoteToASCII("a\n\n" + good1 + "\n"), Verifiers: []string{"k1"}, Mutation: "flip-low@0"})
+}
+
+// ---------------------------------------------------------------- retention
+
+// retentionPart: what the caller does with its own memory after a call returns must not change what the call
+// produced. (1) a list built with VerifierList(vs...) keeps answering as built when vs is overwritten
+// afterwards; (2) a Note returned by Open does not change when the message bytes are overwritten; (3) the
+// bytes returned by Sign do not change when the note is edited, and editing the bytes does not change the note.
+func retentionPart(r *fw.Run) {
+	l := fw.NewLocal()
+	defer r.Merge(l)
+	ks := theKeys()
+	ids := []string{"k1", "k2", "k3", "dup"}
+	sign := func(text string, sids ...string) []byte {
+		var ss []note.Signer
+		for _, id := range sids {
+			ss = append(ss, ks[id].signer)
+		}
+		m, err := note.Sign(&note.Note{Text: text}, ss...)
+		if err != nil {
+			panic(err)
+		}
+		return m
+	}
+	msgs := map[string][]byte{"by-k1": sign("hello\n", "k1"), "by-k2": sign("hello\n", "k2"), "by-k1k2": sign("two\nlines\n", "k1", "k2"), "by-k3": sign("hello\n", "k3")}
+	show := func(n *note.Note, err error) string {
+		if err != nil {
+			return "err=" + err.Error()
+		}
+		return fmt.Sprintf("text=%q sigs=%v unverified=%v", n.Text, sigList(n.Sigs), sigList(n.UnverifiedSigs))
+	}
+	var sets [][]string
+	for _, a := range ids {
+		sets = append(sets, []string{a})
+		for _, b := range ids {
+			if a != b {
+				sets = append(sets, []string{a, b})
+			}
+		}
+	}
+	r.Bounds["retention"] = fmt.Sprintf("%d verifier lists x every single replacement afterwards x %d messages; Open and Sign with the caller's bytes overwritten afterwards", len(sets), len(msgs))
+	mnames := []string{"by-k1", "by-k2", "by-k1k2", "by-k3"}
+	for _, set := range sets {
+		for pos := range set {
+			for _, repl := range ids {
+				vs := make([]note.Verifier, len(set), len(set)+2)
+				for i, id := range set {
+					vs[i] = ks[id].ver
+				}
+				list := note.VerifierList(vs...)
+				fresh := note.VerifierList(append([]note.Verifier(nil), vs...)...)
+				vs[pos] = ks[repl].ver // the caller reuses its slice
+				for _, mn := range mnames {
+					l.States++
+					l.Execs += 2
+					l.Transitions++
+					got := show(note.Open(append([]byte(nil), msgs[mn]...), list))
+					want := show(note.Open(append([]byte(nil), msgs[mn]...), fresh))
+					if got != want {
+						r.Violation(fmt.Sprintf("retention:verifierlist:%v:%d:%s:%s", set, pos, repl, mn), fmt.Sprintf("VerifierList(%v...) answers differently after the caller overwrote element %d of its slice with %s: message %s opens as %s, a list built from a copy gives %s", set, pos, repl, mn, got, want), caseT{Kind: "retention", Signers: []string{mn}, Verifiers: set, Mutation: fmt.Sprintf("%d<-%s", pos, repl)})
+					} else {
+						l.Nontrivial++
+					}
+				}
+			}
+		}
+	}
+	for _, mn := range mnames {
+		for _, set := range [][]string{{"k1"}, {"k2"}, {"k1", "k2"}} {
+			var vs []note.Verifier
+			for _, id := range set {
+				vs = append(vs, ks[id].ver)
+			}
+			buf := append([]byte(nil), msgs[mn]...)
+			n, err := note.Open(buf, note.VerifierList(vs...))
+			before := show(n, err)
+			var une *note.UnverifiedNoteError
+			if errors.As(err, &une) {
+				n = une.Note
+				before = show(n, nil)
+			}
+			for i := range buf {
+				buf[i] = 'X'
+			}
+			l.States++
+			l.Execs++
+			after := before
+			if n != nil {
+				after = show(n, nil)
+			}
+			if n != nil && before != after && err == nil {
+				r.Violation("retention:open:"+mn, fmt.Sprintf("the Note returned by Open changed when the caller overwrote the message bytes: %s -> %s", before, after), caseT{Kind: "retention", Signers: []string{mn}, Verifiers: set, Mutation: "overwrite-message"})
+			}
+			if n != nil && errors.As(err, &une) && show(une.Note, nil) != before {
+				r.Violation("retention:open-unverified:"+mn, "the Note inside UnverifiedNoteError changed when the caller overwrote the message bytes", caseT{Kind: "retention", Signers: []string{mn}, Verifiers: set, Mutation: "overwrite-message"})
+			}
+		}
+	}
+	{
+		n := &note.Note{Text: "hello\n"}
+		out, err := note.Sign(n, ks["k1"].signer)
+		keep := string(out)
+		n.Text = "other\n"
+		n.Sigs = append(n.Sigs, note.Signature{Name: "x", Hash: 1, Base64: "AAAAAQ=="})
+		l.States++
+		l.Execs++
+		if err != nil || string(out) != keep {
+			r.Violation("retention:sign", "the bytes returned by Sign changed when the caller edited the note afterwards", caseT{Kind: "retention", Mutation: "edit-note-after-sign"})
+		}
+		for i := range out {
+			out[i] = 'X'
+		}
+		if n.Text != "other\n" {
+			r.Violation("retention:sign-back", "overwriting the bytes returned by Sign changed the note", caseT{Kind: "retention", Mutation: "overwrite-signed-bytes"})
+		}
+	}
 }
 
 // ---------------------------------------------------------------- overlapping calls
@@ -1119,6 +1236,11 @@ func Replay(r *fw.Run, raw json.RawMessage) {
 		r.States.Add(1)
 		r.Sample(c)
 		overlapPart(r, &c)
+		return
+	}
+	if c.Kind == "retention" {
+		r.Sample(c)
+		retentionPart(r)
 		return
 	}
 	t, _ := strconv.Unquote(c.Text)
